@@ -21,6 +21,12 @@ class B(list):
     is_batch = True
 
 
+# "all kwargs payloads": the names a learner uses for its extra outputs are its own business - among them names that the wrappers
+# between evaluator and learner use for their own parameters (every name carries the same value, the spec's k)
+KWNAMES = ["k", "key", "method", "args", "has_out", "kwargs", "seed"]
+def KW(c): return {n: c for n in KWNAMES}
+
+
 def alt_actions_of(kind, nA):
     """another action set of the same kind and size (action sets may change between rounds)"""
     if kind in ("int01", "int1x", "int0x"): return [7, 8, 9][:nA]
@@ -68,12 +74,12 @@ class FmtLearner:
         batched = is_batch(context) or is_batch(actions)
         if batched and self.layout in ("none", "notbatch"): raise TypeError("this learner does not take batches")
         if not batched:
-            v = self.row(context, actions); kw = {"k": context}
+            v = self.row(context, actions); kw = KW(context)
             if not self.kw: return v
             if isinstance(v, tuple) and not self.fmt.endswith("*") and self.fmt == "AP": return (v[0], v[1], kw)
             return (v, kw)
         rows = [self.row(c, a) for c, a in zip(context, actions)]
-        kws = [{"k": c} for c in context]
+        kws = [KW(c) for c in context]
         if self.layout == "row":
             if not self.kw: return rows
             out = []
@@ -85,11 +91,11 @@ class FmtLearner:
         if self.fmt.endswith("*"):
             key = {"AX": "action", "AP": "action_prob", "PM": "pmf"}[base]
             col = {key: [r[key] for r in rows]}
-            return [col, {"k": [k["k"] for k in kws]}] if self.kw else col
+            return [col, {n: [k[n] for k in kws] for n in KWNAMES}] if self.kw else col
         if base == "AX": cols = [rows]
         elif base == "AP": cols = [tuple(r[0] for r in rows), tuple(r[1] for r in rows)]
         else: cols = [list(x) for x in zip(*rows)]
-        if self.kw: cols = cols + [{"k": [k["k"] for k in kws]}]
+        if self.kw: cols = cols + [{n: [k[n] for k in kws] for n in KWNAMES}]
         return cols if len(cols) > 1 or self.kw or base == "PM" else cols[0]
 
     def learn(self, context, action, reward, probability, **kwargs):
@@ -194,7 +200,7 @@ def one(SafeLearner, cs, expected, kind, vary=False):
             return ("%s:%s:raises:%s" % (fmt, layout, type(e).__name__), "call %d raised %s: %s" % (call, type(e).__name__, str(e)[:150]))
         if len(A) != len(rows): return ("%s:%s:batch-size" % (fmt, layout), "call %d returned %d actions for %d rows" % (call, len(A), len(rows)))
         for i, e in enumerate(rows):
-            want_a = acts[e["a"]]; want_p = None if e["p"] == -1 else e["p"] / 1000; want_k = {} if e["k"] == -1 else {"k": e["k"]}
+            want_a = acts[e["a"]]; want_p = None if e["p"] == -1 else e["p"] / 1000; want_k = {} if e["k"] == -1 else KW(e["k"])
             if not any(A[i] == x for x in acts): return ("%s:%s:not-an-offered-action" % (fmt, layout), "call %d row %d: %r is not one of the offered actions %r" % (call, i + 1, A[i], acts))
             if A[i] != want_a: return ("%s:%s:wrong-action" % (fmt, layout), "call %d row %d: action %r, the learner named (or the seed draws) %r" % (call, i + 1, A[i], want_a))
             if (P[i] is None) != (want_p is None) or (want_p is not None and abs(P[i] - want_p) > 1e-12):
